@@ -22,7 +22,7 @@ func (t *Template) String(filename string, data map[string]any) (string, *fail.E
 		return "", envErr
 	}
 
-	absPath, err := getFullPath(filename, true)
+	absPath, err := getTemplatePath(filename)
 	if err != nil {
 		return "", fail.New(0, filename, "template", "%s", err.Error())
 	}
